@@ -1,6 +1,7 @@
 """Contracts on a816/parse/ast/expression.py (C06): the real shunting_yard + eval_expression against the reference
 semantics, per token shape, for ALL operand values."""
 from a816.parse.ast.expression import OPERATOR_PRECEDENCE, eval_expression, eval_number, shunting_yard
+from a816.parse.parser_states import parse_expression
 from vf.contracts.rt import assume, check
 from vf.specs import expr_ref
 
@@ -26,6 +27,15 @@ def eval_shape_contract(node, resolver, tree, env):
         return
     r = eval_expression(node, resolver)
     check("value_is_conventional", r == expected)
+
+
+def eval_shape_from_tokens_contract(p, resolver, tree, env):
+    """The same, starting one step earlier: the expression's TOKEN list (identifiers, operators, parentheses, then EOF) goes through
+    the real parse_expression -- which decides from the context whether `-` / `~` is a prefix or an infix operator -- and the
+    resulting node through the real shunting_yard / eval_expression."""
+    node = parse_expression(p)
+    check("expression_consumed_exactly", p.pos == len(p.tokens) - 1)
+    eval_shape_contract(node, resolver, tree, env)
 
 
 def precedence_table_contract():
